@@ -53,8 +53,9 @@ int ogg_stream_reset(ogg_stream_state *os){ return 0; }
 int ogg_stream_reset_serialno(ogg_stream_state *os,int serialno){ os->serialno=serialno; return 0; }
 int ogg_stream_pagein(ogg_stream_state *os,ogg_page *og){ return ND_BOOL()?0:-1; }
 static unsigned char env_pkt[8];
+static ogg_int64_t env_last_gran=-1; static int env_last_eos=0;   /* ghost: granule position / e_o_s of the packet handed out last */
 static int env_pk(ogg_packet *op){ if(env_budget<=0) return 0; env_budget--; int r=ND_irange(-1,1);
-  if(r>0&&op){ op->packet=env_pkt; op->bytes=ND_irange(0,8); op->b_o_s=ND_irange(0,1); op->e_o_s=ND_irange(0,1); op->granulepos=ND_range(-1,1L<<40); op->packetno=ND_range(0,1L<<40); }
+  if(r>0&&op){ op->packet=env_pkt; op->bytes=ND_irange(0,8); op->b_o_s=ND_irange(0,1); op->e_o_s=ND_irange(0,1); op->granulepos=ND_range(-1,1L<<40); op->packetno=ND_range(0,1L<<40); env_last_gran=op->granulepos; env_last_eos=(int)op->e_o_s; }
   return r; }
 int ogg_stream_packetout(ogg_stream_state *os,ogg_packet *op){ return env_pk(op); }
 int ogg_stream_packetpeek(ogg_stream_state *os,ogg_packet *op){ return env_pk(op); }
